@@ -127,7 +127,7 @@ def race_exec(rng):
 
 def jobs_c14(prop, tier, seed):
     rng = random.Random(seed * 15485863 + 14)
-    s = 1 if tier == "quick" else 10
+    s = 1 if tier == "quick" else 30
     J = []
     for cfg in ("base", "dbg"):
         execs = known_shapes()
